@@ -6,6 +6,7 @@ from ..report import Check
 from .. import walk
 from ..hirpp import expr_s
 from .common import *
+from ..spec import GRADINGS
 from ..interp import Res
 
 # Python method -> Rust DualNum item (numpy spellings; DESIGN A.6)
@@ -283,7 +284,21 @@ def one_class_rest(chk, F, cn, info):
                 elif n.get("k") == "field" and n.get("name") == "0" and is_self0(n):
                     fields.append("self.0")
             chk.count("getters")
-            if fields:
+            order_of = {"get_first_derivative": 1, "get_second_derivative": 2, "get_third_derivative": 3}.get(nm)
+            inner_ty = F.adt_name(info["inner_t"])
+            direct = [x for x in fields if x != "self.0"]
+            if direct and order_of and inner_ty in GRADINGS:
+                # the parts of total order k in declared order, each read exactly once, in that order
+                want = [f for f, pd in GRADINGS[inner_ty]["parts"] if len(pd) == order_of]
+                ordered = []
+                for n in walk.walk_body(b):
+                    if n.get("k") == "field" and is_self0(n["a"]) and n["name"] not in ordered:
+                        ordered.append(n["name"])
+                reads = [n["name"] for n in walk.walk_body(b) if n.get("k") == "field" and is_self0(n["a"])]
+                ok = ordered == want and len(reads) == len(want)
+                chk.ob("getter|%s|%s" % (cn, nm), ok, "the getter returns the parts of derivative order %d of the wrapped number, each once, in "
+                       "declared order" % order_of, body_loc(F, b), found=reads, required=want)
+            elif fields:
                 chk.ob("getter|%s|%s" % (cn, nm), True, "getter reads parts of self.0", body_loc(F, b), found=sorted(set(fields)), nontrivial=False)
             else:
                 chk.undecide("getter|%s|%s" % (cn, nm), "unsupported: getter does not read self.0 directly", body_loc(F, b))
@@ -435,6 +450,30 @@ def drivers(chk, F, classes):
         chk.ob("driver|%s|argument-order" % name, not order_bad and n_calls >= 1,
                "the driver's parameters reach the Rust driver, and the closure's parameters the Python callable, in declaration order",
                body_loc(F, b), found="; ".join(sorted(set(order_bad))[:4]) or "%d call(s) in order" % n_calls)
+        # (e) result tuples are passed on component by component: a closure `|(a, b, c)| (.. a .., .. b .., .. c ..)` uses its i-th binding in
+        #     the i-th component and nowhere else
+        tup_bad, n_tup = [], 0
+        for n in walk.walk_body(b):
+            if n.get("k") != "closure" or len(n.get("params", [])) != 1 or n["params"][0].get("k") != "tuple":
+                continue
+            binds = [q.get("name") for q in n["params"][0]["pats"] if q.get("k") == "bind"]
+            if len(binds) != len(n["params"][0]["pats"]) or len(binds) < 2:
+                continue
+            body_e = n["body"]
+            tail = body_e
+            while tail.get("k") == "block":
+                tail = tail["b"].get("tail") or {}
+            if tail.get("k") != "tup" or len(tail["es"]) != len(binds):
+                continue
+            # bindings may be re-bound by `let x = f(x)` statements of the same name: names are what is compared
+            n_tup += 1
+            for i_, el in enumerate(tail["es"]):
+                used = {x["res"].get("name") for x in walk.walk(el) if x.get("k") == "path" and x["res"].get("r") == "local"} & set(binds)
+                if used and used != {binds[i_]}:
+                    tup_bad.append("component %d of the returned tuple is built from %s (expected `%s`)" % (i_ + 1, sorted(used), binds[i_]))
+        if n_tup:
+            chk.ob("driver|%s|result-order" % name, not tup_bad, "the components of the Rust driver's result are passed to Python in the same order",
+                   body_loc(F, b), found="; ".join(sorted(set(tup_bad))[:3]) or "%d result closures in order" % n_tup)
         # (c) matrices are converted by rows
         its = {n["m"] for n in walk.walk_body(b) if n.get("k") == "mcall" and n["m"] in ("row_iter", "column_iter")}
         if name in ("jacobian", "hessian", "partial_hessian"):
